@@ -198,7 +198,7 @@ class ContinuousVariable(Variable):
         return self.lower_bound, self.upper_bound
 
     def correct(self, value: float | int) -> float:
-        return float(np.clip(value, self.lower_bound, self.upper_bound))
+        return float(np.clip(float(value), self.lower_bound, self.upper_bound))
 
     def decode(self, value: float) -> float:
         return value
